@@ -184,12 +184,12 @@ class Dot15d4Domain(Registry):
     def is_packet_compat(self, packet) -> bool:
         """Determine if a packet is a Dot15d4 packet.
         """
-        return isinstance(packet.metadata, Dot15d4Metadata)
+        return isinstance(getattr(packet, "metadata", None), Dot15d4Metadata)
 
     def convert_packet(self, packet) -> HubMessage:
         """Convert a Dot15d4 packet to SendPdu or SendBlePdu message.
         """
-        if isinstance(packet.metadata, Dot15d4Metadata):
+        if isinstance(getattr(packet, "metadata", None), Dot15d4Metadata):
             if packet.metadata.raw:
                 return Dot15d4Domain.bound('send_raw', self.proto_version).from_packet(
                     packet, channel=packet.metadata.channel
